@@ -126,7 +126,15 @@ func walHeadIsTorn(path string) (bool, error) {
 	}
 }
 
-func (cs *State) catchupReplay(csHeight int64) error {
+// catchupReplay replays the WAL messages logged for csHeight.
+//
+// The first skip messages of the height are not applied again: a pass that
+// was cut short by a corrupted record has applied them already, and the pass
+// that follows the repair must not apply them a second time on top of the
+// state the first one left (a block part logged in an earlier round would
+// complete a later round's proposal, votes would be signed that were never
+// signed). It returns how many messages it went past.
+func (cs *State) catchupReplay(csHeight int64, skip int) (int, error) {
 
 	// Set replayMode to true so we don't log signing errors.
 	cs.replayMode = true
@@ -140,22 +148,22 @@ func (cs *State) catchupReplay(csHeight int64) error {
 	// Ignore data corruption errors since this is a sanity check.
 	gr, found, err := cs.wal.SearchForEndHeight(csHeight, &WALSearchOptions{IgnoreDataCorruptionErrors: true})
 	if err != nil {
-		return err
+		return 0, err
 	}
 	if gr != nil {
 		if err := gr.Close(); err != nil {
-			return err
+			return 0, err
 		}
 	}
 	if found {
-		return fmt.Errorf("wal should not contain #ENDHEIGHT %d", csHeight)
+		return 0, fmt.Errorf("wal should not contain #ENDHEIGHT %d", csHeight)
 	}
 
 	// Search for last height marker.
 	//
 	// Ignore data corruption errors in previous heights because we only care about last height
 	if csHeight < cs.state.InitialHeight {
-		return fmt.Errorf("cannot replay height %v, below initial height %v", csHeight, cs.state.InitialHeight)
+		return 0, fmt.Errorf("cannot replay height %v, below initial height %v", csHeight, cs.state.InitialHeight)
 	}
 	endHeight := csHeight - 1
 	if csHeight == cs.state.InitialHeight {
@@ -165,10 +173,10 @@ func (cs *State) catchupReplay(csHeight int64) error {
 	if err == io.EOF {
 		cs.Logger.Error("Replay: wal.group.Search returned EOF", "#ENDHEIGHT", endHeight)
 	} else if err != nil {
-		return err
+		return 0, err
 	}
 	if !found {
-		return errEndHeightMissing{height: csHeight, endHeight: endHeight}
+		return 0, errEndHeightMissing{height: csHeight, endHeight: endHeight}
 	}
 	defer gr.Close()
 
@@ -176,6 +184,7 @@ func (cs *State) catchupReplay(csHeight int64) error {
 
 	var msg *TimedWALMessage
 	dec := WALDecoder{gr}
+	done := 0
 
 LOOP:
 	for {
@@ -185,20 +194,26 @@ LOOP:
 			break LOOP
 		case IsDataCorruptionError(err):
 			cs.Logger.Error("data has been corrupted in last height of consensus WAL", "err", err, "height", csHeight)
-			return err
+			return done, err
 		case err != nil:
-			return err
+			return done, err
+		}
+
+		if done < skip {
+			done++
+			continue
 		}
 
 		// NOTE: since the priv key is set when the msgs are received
 		// it will attempt to eg double sign but we can just ignore it
 		// since the votes will be replayed and we'll get to the next step
 		if err := cs.readReplayMessage(msg, nil); err != nil {
-			return err
+			return done, err
 		}
+		done++
 	}
 	cs.Logger.Info("Replay: Done")
-	return nil
+	return done, nil
 }
 
 //--------------------------------------------------------------------------------
